@@ -408,7 +408,8 @@ class MultiIndexLocation(IndexLocation):
 
     def detachedCopy(self) -> "MultiIndexLocation":
         loc = MultiIndexLocation(None)
-        loc.extend(self._locations)
+        # the inner cells are the grid's own (cached, attached) locators: detach copies of them, do not share them
+        loc.extend([inner.detachedCopy() for inner in self._locations])
         return loc
 
     def associate(self, grid: "Grid"):
